@@ -14,6 +14,7 @@ import (
 	"math/rand"
 	"os"
 	"path/filepath"
+	"runtime/debug"
 	"sort"
 	"strconv"
 	"strings"
@@ -254,4 +255,21 @@ func verifRoot() string {
 		return d
 	}
 	return "/verif"
+}
+
+// repoDir: the teleport source tree this test binary was BUILT against. ./check builds with a private -modfile whose
+// replace directive names the tree under check, so the binary's build info is the authority; then VERIF_REPO; then /repo.
+// (The tracked harness/go.mod always names /repo and must not be consulted.)
+func repoDir() string {
+	if bi, ok := debug.ReadBuildInfo(); ok {
+		for _, d := range bi.Deps {
+			if d.Path == "github.com/teleport-network/teleport" && d.Replace != nil && d.Replace.Path != "" {
+				return d.Replace.Path
+			}
+		}
+	}
+	if d := os.Getenv("VERIF_REPO"); d != "" {
+		return d
+	}
+	return "/repo"
 }
